@@ -1194,7 +1194,7 @@ impl<'de> de::Deserializer<'de> for &mut Deserializer<'de> {
                         self.wire_type
                     )));
                 }
-                let value = visitor.visit_seq(Compound::new(
+                let mut compound = Compound::new(
                     self,
                     Style::Struct {
                         expect,
@@ -1202,7 +1202,11 @@ impl<'de> de::Deserializer<'de> for &mut Deserializer<'de> {
                         expect_idx: 0,
                         wire_idx: 0,
                     },
-                ))?;
+                );
+                let value = visitor.visit_seq(&mut compound)?;
+                // A wire record with more fields is a subtype of the expected tuple:
+                // skip the fields the visitor did not ask for, so their bytes are consumed.
+                while de::SeqAccess::next_element::<de::IgnoredAny>(&mut compound)?.is_some() {}
                 Ok(value)
             }
             _ => check!(false),
